@@ -174,19 +174,19 @@ impl Project for FileBackedProject {
 
         // Do the analysis
         match analyze(&all_libraries) {
-            Ok(_) => {}
+            Ok(_) => {
+                // A file that did not parse is an error even if the other files are valid
+                if !all_diagnostics.is_empty() {
+                    return Err(all_diagnostics);
+                }
+                Ok(())
+            }
             Err(diagnostics) => {
                 // If we had an error, then add more diagnostics to any that we already had
                 all_diagnostics.extend(diagnostics);
+                Err(all_diagnostics)
             }
         }
-
-        // A file that did not parse is an error even if the other files are valid
-        if !all_diagnostics.is_empty() {
-            return Err(all_diagnostics);
-        }
-
-        Ok(())
     }
 
     fn sources(&self) -> Vec<&Source> {
